@@ -5,6 +5,8 @@ type nat =
 | O
 | S of nat
 
+val fst : ('a1 * 'a2) -> 'a1
+
 val length : 'a1 list -> nat
 
 val app : 'a1 list -> 'a1 list -> 'a1 list
@@ -17,6 +19,8 @@ type comparison =
 val compOpp : comparison -> comparison
 
 val add : nat -> nat -> nat
+
+val sub : nat -> nat -> nat
 
 module Nat :
  sig
@@ -35,7 +39,7 @@ val fold_right : ('a2 -> 'a1 -> 'a1) -> 'a1 -> 'a2 list -> 'a1
 
 val existsb : ('a1 -> bool) -> 'a1 list -> bool
 
-val skipn : nat -> 'a1 list -> 'a1 list
+val firstn : nat -> 'a1 list -> 'a1 list
 
 val seq : nat -> nat -> nat list
 
@@ -245,7 +249,7 @@ type dres =
 | DBadChar of z
 | DLengthError
 
-val count_padding_rev : z list -> nat
+val count_padding_aux : z list -> nat * bool
 
 val count_padding : z list -> nat
 
